@@ -477,3 +477,71 @@ Section ListOps2.
     - intros k Hk. apply Eh. destruct k; try reflexivity. simpl in *. lia.
   Qed.
 End ListOps2.
+
+(* direct assignments that keep the table a list: t[n+1] = v, t[i] = v (1 <= i <= n), t[n] = nil *)
+Section Assign.
+  Variable mai : Z.
+  Notation RawGet := (RawGet mai).
+
+  Lemma view_ext f g n : (forall i, 1 <= i <= n -> f (KInt i) = g (KInt i)) -> view f n = view g n.
+  Proof.
+    intros H. destruct (Z_lt_le_dec n 0) as [Hn|Hn].
+    - unfold view. replace (Z.to_nat n) with O by lia. reflexivity.
+    - apply list_ext_nthv; [rewrite !len_view; lia|].
+      intros i Hi. rewrite len_view in Hi by lia. rewrite !nthv_view by lia.
+      assert ((0 <=? i) && (i <? n) = true) as -> by lia. apply H. lia.
+  Qed.
+
+  Lemma assign_refines_lemma t n i v :
+    bounded mai t -> is_list (RawGet t) n ->
+    let t' := RawSet mai t (KInt i) v in
+    bounded mai t' /\
+    (i = n + 1 -> v <> VNil ->
+       is_list (RawGet t') (n + 1) /\ view (RawGet t') (n + 1) = view (RawGet t) n ++ [v]) /\
+    (1 <= i <= n -> v <> VNil ->
+       is_list (RawGet t') n /\ view (RawGet t') n = upd (view (RawGet t) n) (Z.to_nat (i - 1)) v) /\
+    (i = n -> 1 <= n -> v = VNil ->
+       is_list (RawGet t') (n - 1) /\ view (RawGet t') (n - 1) = firstn (Z.to_nat (n - 1)) (view (RawGet t) n)).
+  Proof.
+    intros B (H0 & H1 & H2) t'.
+    assert (E : forall k, RawGet t' k = f_set (RawGet t) (KInt i) v k) by (intros k; apply RawGet_RawSet).
+    assert (Ei : forall z, RawGet t' (KInt z) = if z =? i then v else RawGet t (KInt z)).
+    { intros z. rewrite E. reflexivity. }
+    split; [now apply bounded_RawSet|]. split; [|split].
+    - intros -> Hv. split.
+      + split; [lia|]. split; intros z Hz; rewrite Ei.
+        * destruct (z =? n + 1) eqn:Ez; [assumption|apply H1; lia].
+        * assert (z =? n + 1 = false) as -> by lia. apply H2. lia.
+      + apply list_ext_nthv; [rewrite len_snoc, !len_view; lia|].
+        intros j Hj. rewrite len_view in Hj by lia. rewrite nthv_view by lia.
+        assert ((0 <=? j) && (j <? n + 1) = true) as -> by lia. rewrite Ei.
+        destruct (j + 1 =? n + 1) eqn:Ej.
+        * rewrite nthv_app_r by (rewrite len_view; lia). rewrite len_view by lia.
+          replace (j - n) with 0 by lia. reflexivity.
+        * rewrite nthv_app_l by (rewrite len_view; lia). rewrite nthv_view by lia.
+          assert ((0 <=? j) && (j <? n) = true) as -> by lia. reflexivity.
+    - intros Hi Hv. split.
+      + split; [lia|]. split; intros z Hz; rewrite Ei.
+        * destruct (z =? i) eqn:Ez; [assumption|apply H1; lia].
+        * assert (z =? i = false) as -> by lia. apply H2. lia.
+      + apply list_ext_nthv; [rewrite len_upd, !len_view; lia|].
+        intros j Hj. rewrite len_view in Hj by lia. rewrite nthv_view by lia.
+        assert ((0 <=? j) && (j <? n) = true) as -> by lia. rewrite Ei.
+        rewrite nthv_upd by lia. rewrite len_view by lia.
+        destruct (j + 1 =? i) eqn:Ej.
+        * assert ((j =? i - 1) && (i - 1 <? n) = true) as -> by lia. reflexivity.
+        * assert ((j =? i - 1) && (i - 1 <? n) = false) as -> by lia.
+          rewrite nthv_view by lia. assert ((0 <=? j) && (j <? n) = true) as -> by lia. reflexivity.
+    - intros -> Hn ->. split.
+      + split; [lia|]. split; intros z Hz; rewrite Ei.
+        * assert (z =? n = false) as -> by lia. apply H1. lia.
+        * destruct (z =? n) eqn:Ez; [reflexivity|apply H2; lia].
+      + apply list_ext_nthv.
+        { rewrite len_view by lia. pose proof (len_view (RawGet t) n H0) as L. unfold len in *. rewrite firstn_length. lia. }
+        intros j Hj. rewrite len_view in Hj by lia. rewrite nthv_view by lia.
+        assert ((0 <=? j) && (j <? n - 1) = true) as -> by lia. rewrite Ei.
+        assert (j + 1 =? n = false) as -> by lia.
+        rewrite nthv_firstn. assert (j <? Z.of_nat (Z.to_nat (n - 1)) = true) as -> by lia.
+        rewrite nthv_view by lia. assert ((0 <=? j) && (j <? n) = true) as -> by lia. reflexivity.
+  Qed.
+End Assign.
